@@ -21,6 +21,7 @@ package main
 
 import (
 	"fmt"
+	"go/constant"
 	"go/token"
 	"sort"
 	"strings"
@@ -124,58 +125,71 @@ func c09SuiteValidTable(p *Prog, r *Result) {
 
 	var accept [][]tCond
 	npaths := 0
-	var walk func(b, prev *ssa.BasicBlock, env map[*ssa.Phi]ssa.Value, conds []tCond, depth int)
-	resolve := func(v ssa.Value, env map[*ssa.Phi]ssa.Value) (ssa.Value, bool) { // value, negated
-		neg := false
-		for k := 0; k < 16; k++ {
-			switch x := v.(type) {
-			case *ssa.Phi:
-				nv, ok := env[x]
-				if !ok {
-					return v, neg
+	suiteVal := map[ssa.Value]bool{fn.Params[0]: true}
+	// the suite-name atom needs to recognise the receiver (also when handed to a helper)
+	atomOfX := func(v ssa.Value) (tAtom, bool, bool) {
+		if a, pos, ok := atomOf(v); ok {
+			return a, pos, ok
+		}
+		if bo, ok := v.(*ssa.BinOp); ok && (bo.Op == token.EQL || bo.Op == token.NEQ) {
+			for _, pr := range [][2]ssa.Value{{bo.X, bo.Y}, {bo.Y, bo.X}} {
+				if suiteVal[pr[0]] {
+					if c, ok := pr[1].(*ssa.Const); ok && c.Value != nil {
+						if sv, err := unquote(c.Value.ExactString()); err == nil {
+							return tAtom{"suite", "", sv}, bo.Op == token.EQL, true
+						}
+					}
 				}
+			}
+		}
+		return tAtom{}, false, false
+	}
+	type envT map[ssa.Value]ssa.Value
+	resolve := func(v ssa.Value, env envT) (ssa.Value, bool) { // value, negated
+		neg := false
+		for k := 0; k < 24; k++ {
+			if nv, ok := env[v]; ok && nv != v {
 				v = nv
 				continue
-			case *ssa.UnOp:
-				if x.Op == token.NOT {
-					neg = !neg
-					v = x.X
-					continue
-				}
+			}
+			if x, ok := v.(*ssa.UnOp); ok && x.Op == token.NOT {
+				neg = !neg
+				v = x.X
+				continue
 			}
 			break
 		}
 		return v, neg
 	}
-	walk = func(b, prev *ssa.BasicBlock, env map[*ssa.Phi]ssa.Value, conds []tCond, depth int) {
-		if undecided != "" || depth > 200 {
+	// walkFn enumerates the paths of g from block b, instruction index idx; on
+	// every return it calls onRet with the (resolved) results.
+	var walkFn func(g *ssa.Function, b, prev *ssa.BasicBlock, idx int, env envT, conds []tCond, depth int, onRet func(results []ssa.Value, env envT, conds []tCond))
+	walkFn = func(g *ssa.Function, b, prev *ssa.BasicBlock, idx int, env envT, conds []tCond, depth int, onRet func([]ssa.Value, envT, []tCond)) {
+		if undecided != "" || depth > 400 {
 			return
 		}
-		if prev != nil {
-			idx := -1
+		if prev != nil && idx == 0 {
+			pi := -1
 			for i, pb := range b.Preds {
 				if pb == prev {
-					idx = i
+					pi = i
 				}
 			}
-			var nenv map[*ssa.Phi]ssa.Value
+			var nenv envT
 			for _, in := range b.Instrs {
 				phi, ok := in.(*ssa.Phi)
 				if !ok {
 					break
 				}
 				if nenv == nil {
-					nenv = make(map[*ssa.Phi]ssa.Value, len(env)+4)
+					nenv = make(envT, len(env)+4)
 					for k, v := range env {
 						nenv[k] = v
 					}
 				}
-				ev, _ := phi.Edges[idx], 0
-				// the incoming value may itself be a phi of an earlier block
-				if ph2, ok := ev.(*ssa.Phi); ok {
-					if rv, ok := env[ph2]; ok {
-						ev = rv
-					}
+				ev := phi.Edges[pi]
+				if rv, ok := env[ev]; ok {
+					ev = rv
 				}
 				nenv[phi] = ev
 			}
@@ -183,32 +197,74 @@ func c09SuiteValidTable(p *Prog, r *Result) {
 				env = nenv
 			}
 		}
+		for k := idx; k < len(b.Instrs); k++ {
+			in := b.Instrs[k]
+			if call, ok := in.(*ssa.Call); ok {
+				callee := p.body(call.Common().StaticCallee())
+				if callee != nil && funcPkgPath(callee) == funcPkgPath(fn) && callee != g && callee != fn && len(callee.Blocks) > 0 {
+					// inline: bind the callee's parameters to what the arguments denote
+					ops := callOperands(call.Common())
+					for pi, prm := range callee.Params {
+						if pi >= len(ops) {
+							break
+						}
+						a, _ := resolve(ops[pi], env)
+						if w := who[a]; w != "" {
+							who[prm] = w
+						}
+						if suiteVal[a] {
+							suiteVal[prm] = true
+						}
+					}
+					walkFn(callee, callee.Blocks[0], nil, 0, env, conds, depth+1, func(results []ssa.Value, env2 envT, conds2 []tCond) {
+						nenv := make(envT, len(env2)+4)
+						for kk, vv := range env2 {
+							nenv[kk] = vv
+						}
+						if len(results) == 1 {
+							nenv[call] = results[0]
+						}
+						for _, ref := range *call.Referrers() {
+							if ex, ok := ref.(*ssa.Extract); ok && ex.Index < len(results) {
+								nenv[ex] = results[ex.Index]
+							}
+						}
+						walkFn(g, b, prev, k+1, nenv, conds2, depth+1, onRet)
+					})
+					return
+				}
+			}
+		}
 		switch last := b.Instrs[len(b.Instrs)-1].(type) {
 		case *ssa.Return:
-			npaths++
-			rv, neg := resolve(last.Results[0], env)
-			c, ok := rv.(*ssa.Const)
-			if !ok || c.Value == nil {
-				undecided = "non-constant return value at " + p.instrPos(last)
-				return
+			var res []ssa.Value
+			for _, rv := range last.Results {
+				v, neg := resolve(rv, env)
+				if neg {
+					if c, ok := v.(*ssa.Const); ok && c.Value != nil {
+						v = ssa.NewConst(constantBool(c.Value.ExactString() != "true"), c.Type())
+					} else {
+						undecided = "negated non-constant result at " + p.instrPos(last)
+						return
+					}
+				}
+				res = append(res, v)
 			}
-			if (c.Value.ExactString() == "true") != neg {
-				accept = append(accept, append([]tCond(nil), conds...))
-			}
+			onRet(res, env, conds)
 		case *ssa.Jump:
-			walk(b.Succs[0], b, env, conds, depth+1)
+			walkFn(g, b.Succs[0], b, 0, env, conds, depth+1, onRet)
 		case *ssa.If:
 			cv, neg := resolve(last.Cond, env)
 			if c, ok := cv.(*ssa.Const); ok && c.Value != nil {
 				t := (c.Value.ExactString() == "true") != neg
 				if t {
-					walk(b.Succs[0], b, env, conds, depth+1)
+					walkFn(g, b.Succs[0], b, 0, env, conds, depth+1, onRet)
 				} else {
-					walk(b.Succs[1], b, env, conds, depth+1)
+					walkFn(g, b.Succs[1], b, 0, env, conds, depth+1, onRet)
 				}
 				return
 			}
-			a, pos, ok := atomOf(cv)
+			a, pos, ok := atomOfX(cv)
 			if !ok {
 				undecided = "condition of unrecognised shape at " + p.instrPos(last) + ": " + cv.String()
 				return
@@ -217,7 +273,6 @@ func c09SuiteValidTable(p *Prog, r *Result) {
 				pos = !pos
 			}
 			for i, pol := range []bool{pos, !pos} {
-				// prune contradictions
 				contra := false
 				for _, c := range conds {
 					if c.a == a && c.pos != pol {
@@ -227,13 +282,28 @@ func c09SuiteValidTable(p *Prog, r *Result) {
 				if contra {
 					continue
 				}
-				walk(b.Succs[i], b, env, append(conds[:len(conds):len(conds)], tCond{a, pol}), depth+1)
+				walkFn(g, b.Succs[i], b, 0, env, append(conds[:len(conds):len(conds)], tCond{a, pol}), depth+1, onRet)
 			}
 		default:
 			undecided = "unexpected block terminator at " + p.instrPos(last)
 		}
 	}
-	walk(fn.Blocks[0], nil, map[*ssa.Phi]ssa.Value{}, nil, 0)
+	walkFn(fn, fn.Blocks[0], nil, 0, envT{}, nil, 0, func(results []ssa.Value, _ envT, conds []tCond) {
+		npaths++
+		if len(results) != 1 {
+			undecided = "unexpected result count"
+			return
+		}
+		c, ok := results[0].(*ssa.Const)
+		if !ok || c.Value == nil {
+			undecided = "non-constant return value of Suite.Valid on some path"
+			return
+		}
+		if c.Value.ExactString() == "true" {
+			accept = append(accept, append([]tCond(nil), conds...))
+		}
+	})
+
 	if undecided != "" {
 		r.table(p, rule, "decision table of fdo/kex.Suite.Valid", p.Pos(fn.Pos()), false, "undecided: "+undecided)
 		return
@@ -346,3 +416,5 @@ func c09SuiteValidTable(p *Prog, r *Result) {
 		}
 	}
 }
+
+func constantBool(b bool) constant.Value { return constant.MakeBool(b) }
